@@ -28,6 +28,9 @@ TRICKY = [
     (["value", "defaults"], "value + \\\n        defaults > 100", {"value": 1, "defaults": 2}),
     (["value", "returns", "class_"], "0 < value < 10 // value and\n        returns[0] > 0 and\n        class_ is None",
      {"value": 11, "returns": [], "class_": None}),
+    (["x", "name"], 'x > 100 or\n        name == "def foo" or\n        name == "class Bar: pass"', {"x": 1, "name": "abc"}),
+    (["x", "name"], 'x > 100 or  # def in a comment, class too\n        name == "@decorator"', {"x": 1, "name": "abc"}),
+    (["x", "name"], 'x > 100 and name in (\n        "async def f(): pass",\n        "@icontract.require(lambda: True)")', {"x": 1, "name": "abc"}),
     (["x", "xs"], "xs and xs[0] > 0", {"x": 1, "xs": []}),
     (["x", "n"], "n is None or n.y", {"x": 1, "n": 0}),
     (["n"], "0 < n < 10 // n", {"n": 0}),
@@ -58,6 +61,11 @@ def cases(tier, rng):
         c = exprprop.make_case(rng, depth=rng.choice([2, 3]), features=exprprop.MODEL_FEATURES, params=["x", "y", "xs", "s", "o", "n"])
         if c:
             yield "modelled", c
+    for _ in range(1500 if thorough else 200):
+        # conditions given as named functions: the message carries the function's name instead of a lambda's text
+        c = exprprop.make_case(rng, depth=2, features=dict(feats, walrus=False), kind=rng.choice(["require", "ensure"]), named=True)
+        if c:
+            yield "named-function", c
     for _ in range(3000 if thorough else 400):
         c = exprprop.tick_case(rng)
         if c:
